@@ -24,6 +24,7 @@ pub proof fn axiom_str_borrow_map<V>(m: Map<String, V>, k: &str)
 pub proof fn axiom_string_ext(a: String, b: String) ensures a@ == b@ ==> a == b {}
 // A-clone: derived Clone of AssemblyCode copies the line vector
 pub open spec fn code_eq(a: Seq<AsmLine>, b: Seq<AsmLine>) -> bool { a.len() == b.len() && forall|k: int| 0 <= k < a.len() ==> line_eq(#[trigger] a[k], b[k]) }
+#[verifier::external_body] pub fn string_is(s: &String, t: &str) -> (r: bool) ensures r == (s@ == t@) { s == t }      // R15: String == str
 #[verifier::external_body]
 pub fn clone_code(c: &AssemblyCode) -> (r: AssemblyCode) ensures code_eq(r.code@, c.code@) { c.clone() }
 // the label a `return` inside an inline function jumps to, once the expansion has suffixed it, is the end label push_code() appends
@@ -81,6 +82,7 @@ def build(repo):
     pc = ga.fn("push_code", within="GeneratorState")
     cuts.append(pc)
     u_asm.r5_current_function(pc)
+    pc.sub(r"\bfx == f\b", "string_is(_fx, f)", "R15 String == &str -> shim (R5 renamed the binding)", expect=(0, 1))
     pc.sub(r"code\.append_code\(", "self.out.append_code(", "R5-code->self.out", expect=(0, 1))
     pc.sub(r"Some\(c\) => c\.clone\(\),", "Some(c) => clone_code(c),", "R-clone (A-clone)", expect=1)
     fm = common.Fmt({"self.inline_label_counter": ("int", None)})
